@@ -470,7 +470,8 @@ def oracle_filters(rng, n, stats, props, kinds=('size', 'prefix', 'position', 's
         earlier.append({'ltable': case0['ltable'], 'rtable': case0['rtable'], 'l_key': lk, 'r_key': rk, 'l_attr': la, 'r_attr': ra})
         try:
             nj = rng.choice([1, 1, 2, 3])
-            out = f.filter_tables(L, R, lk, rk, la, ra, n_jobs=nj, show_progress=False)
+            with quiet():
+                out = f.filter_tables(L, R, lk, rk, la, ra, n_jobs=nj, **progress_kw('filter_tables', kind, len(L), len(R), nj))
         except Exception as e:   # noqa: BLE001
             v.append(viol('C15', 'valid %s filter_tables call raised %s: %s' % (kind, type(e).__name__, str(e)[:100]), filter_case(kind, d, ts, case0)))
             continue
@@ -548,7 +549,8 @@ def oracle_filters(rng, n, stats, props, kinds=('size', 'prefix', 'position', 's
             C, clk, crk = gen_candset(rng, L, R, lk, rk, stats)
             try:
                 nj2 = rng.choice([1, 2, 3])
-                oc = f.filter_candset(C, clk, crk, L, R, lk, rk, la, ra, n_jobs=nj2, show_progress=False)
+                with quiet():
+                    oc = f.filter_candset(C, clk, crk, L, R, lk, rk, la, ra, n_jobs=nj2, **progress_kw('filter_candset', kind, len(C), nj2))
             except Exception as e:   # noqa: BLE001
                 v.append(viol('C15', 'valid filter_candset call raised %s' % type(e).__name__, filter_case(kind, d, ts, dict(case0, candset=frame_to_case(C)))))
                 continue
@@ -581,6 +583,17 @@ def oracle_matcher(rng, n, stats):
         C, clk, crk = gen_candset(rng, L, R, lk, rk, stats)
         if use_tok:
             name, base = rng.choice([('jaccard', Jaccard().get_raw_score), ('overlap', lambda a, b: len(set(a) & set(b))), ('dice', Dice().get_raw_score)])
+        elif L is not R and rng.random() < 0.25:
+            # without a tokenizer the match attributes need not be strings: years compared by |a - b|
+            L, R = L.copy(), R.copy()
+            if rng.random() < 0.5:
+                L[la] = pd.Series([rng.randint(1990, 1996) for _ in range(len(L))], dtype='int64', index=L.index)
+                R[ra] = pd.Series([rng.randint(1990, 1996) for _ in range(len(R))], dtype='int64', index=R.index)
+            else:
+                L[la] = pd.Series([rng.choice([1990.0, 1991.5, 1993.0, np.nan]) for _ in range(len(L))], dtype='float64', index=L.index)
+                R[ra] = pd.Series([rng.choice([1990.0, 1991.5, 1993.0, np.nan]) for _ in range(len(R))], dtype='float64', index=R.index)
+            name, base = 'absdiff', (lambda a, b: abs(a - b))
+            stats.hit('oracle.matcher.numeric_match_attr')
         else:
             name, base = rng.choice([('lev', LEV), ('lendiff', lambda a, b: abs(len(a) - len(b)))])
         t = rng.choice([0.3, 0.5, 0.7, 1, 1.0, 2, 0])
@@ -594,7 +607,9 @@ def oracle_matcher(rng, n, stats):
                 'allow_missing': am, 'l_out': lo, 'r_out': ro, 'out_sim_score': oss}
         try:
             for nj in (1, rng.choice([2, 3, 50])):
-                outs[nj] = ssj.apply_matcher(C, clk, crk, L, R, lk, rk, la, ra, ts.obj if ts else None, base, t, opn, am, lo, ro, 'l_', 'r_', oss, nj, False)
+                with quiet():
+                    outs[nj] = ssj.apply_matcher(C, clk, crk, L, R, lk, rk, la, ra, ts.obj if ts else None, base, t, opn, am, lo, ro, 'l_', 'r_', oss, nj,
+                                                 **progress_kw('apply_matcher', len(C), nj, opn, str(t)))
         except Exception as e:   # noqa: BLE001
             v.append(viol('C15', 'valid apply_matcher call raised %s: %s' % (type(e).__name__, str(e)[:80]), case))
             continue
@@ -639,6 +654,42 @@ def oracle_matcher(rng, n, stats):
                 v.append(viol('C05', 'apply_matcher result depends on n_jobs', dict(case, n_jobs=nj)))
         v += [dict(x, property='C11') for x in check_header_projection(case, out, L, R, lk, rk, lo, ro, 'l_', 'r_', oss)] if False else []
         stats.hit('oracle.matcher.kept', len(out))
+    return v
+
+
+# ------------------------------------------------------------------ C11 header / projection of filter_tables and apply_matcher
+def oracle_projection(rng, n, stats):
+    """C11 for the entry points other than the joins: every filter's filter_tables, with any output attribute lists, the
+    caller's own prefixes, allow_missing, and show_progress left at its default in a share of calls (apply_matcher is not
+    in C11's statement: an empty candidate set is returned as it is, whatever columns it has)"""
+    v = []
+    for _ in range(n):
+        ts = gen_tokenizer(rng)
+        L, R, lk, rk, la, ra = gen_join_frames(rng, ts, stats, nonstring=False)
+        lo, ro = choose_out_attrs(rng, L, lk, la), choose_out_attrs(rng, R, rk, ra)
+        lpre, rpre = S.gen_prefixes(rng, stats, 'oracle.projection')
+        nj = rng.choice([1, 1, 2, 3])
+        base = {'ltable': frame_to_case(L), 'rtable': frame_to_case(R), 'l_key': lk, 'r_key': rk, 'l_attr': la, 'r_attr': ra,
+                'l_out': lo, 'r_out': ro, 'l_out_prefix': lpre, 'r_out_prefix': rpre, 'n_jobs': nj}
+        case = dict(base, entry='filter_tables')
+        try:
+            kind = rng.choice(['size', 'prefix', 'position', 'suffix', 'overlap'])
+            f, d = gen_filter(rng, ts, kind, stats)
+            ts.obj.set_return_set(d.get('measure', 'OVERLAP') != 'EDIT_DISTANCE')
+            kw = {'l_out_attrs': lo, 'r_out_attrs': ro, 'l_out_prefix': lpre, 'r_out_prefix': rpre, 'n_jobs': nj}
+            oss = False
+            if kind == 'overlap':
+                oss = rng.random() < 0.5
+                kw['out_sim_score'] = oss
+            kw.update(progress_kw('projection', kind, len(L), len(R), nj, str(lo), str(ro)))
+            case = filter_case(kind, d, ts, dict(base, entry='filter_tables', show_progress_default='show_progress' not in kw))
+            with quiet():
+                out = f.filter_tables(L, R, lk, rk, la, ra, **kw)
+            stats.hit('oracle.projection.filter_tables.' + kind)
+        except Exception as e:   # noqa: BLE001
+            v.append(viol('C15', 'valid %s call raised %s: %s' % (case.get('entry'), type(e).__name__, str(e)[:100]), case))
+            continue
+        v += check_header_projection(case, out, L, R, lk, rk, lo, ro, lpre, rpre, oss)
     return v
 
 
@@ -731,9 +782,21 @@ def oracle_pipeline(rng, n, stats):
                 bl, br = ts.tokens(ls, False), ts.tokens(rs, False)
                 repeats = len(bl) != len(set(bl)) or len(br) != len(set(br))
                 if repeats:
-                    if (p in jp) != (p in pp) or (p in jp and round(float(pp[p]), 4) != float(jp[p])):
+                    # K6 explains exactly one thing: the filter (counting the bag) drops a pair the join (on sets) returns.
+                    # apply_matcher's similarity functions turn token lists into sets themselves, so a pair the pipeline
+                    # returns and the join does not, or a different score, is NOT explained by it.
+                    opb = OPS[kw['comp_op']]
+                    if p in jp and p not in pp:
                         v.append(viol('C07', 'bag-mode tokenizer: join (on sets) and %s-filter pipeline (on bags) disagree on a pair with repeated tokens' % fk,
                                       dict(case, bag_mode_repeats=True, pair=[str(p[0]), str(p[1])]), p in pp, p in jp))
+                    elif opb(raw, t) != opb(round(raw, 4), t):
+                        pass          # straddling pair: excluded by the property
+                    elif p in pp and p not in jp:
+                        v.append(viol('C07', 'bag-mode tokenizer: the %s-filter pipeline returns a pair the join does not (score %r, t %r)' % (fk, raw, t),
+                                      dict(case, pair=[str(p[0]), str(p[1])]), True, False))
+                    elif p in jp and round(float(pp[p]), 4) != float(jp[p]):
+                        v.append(viol('C07', 'bag-mode tokenizer: pipeline score rounded to 4 decimals differs from the join score',
+                                      dict(case, pair=[str(p[0]), str(p[1])]), round(float(pp[p]), 4), float(jp[p])))
                     continue
                 lt, rt = bl, br
             raw_list = PIPE_SIMS[which](lt, rt)      # what apply_matcher computes: py_stringmatching on the token LISTS
@@ -818,6 +881,14 @@ def straddling_corpus_case():
     return 'jaccard', ts, L, R, 'id', 'id', 'attr', 'attr', 0.6667, kw
 
 
+def relabel(rng, n):
+    """new row labels: unique in any order, or repeated (what pd.concat of parts without ignore_index gives)"""
+    if n > 1 and rng.random() < 0.3:
+        k = rng.randint(1, n - 1)
+        return [i % k for i in range(n)]
+    return rng.sample(range(1000), n)
+
+
 def oracle_schedule(rng, n, stats):
     v = []
     for it in range(n + 1):
@@ -848,7 +919,7 @@ def oracle_schedule(rng, n, stats):
         R2 = R.sample(frac=1.0, random_state=rng.randint(0, 10 ** 6)) if len(R) else R
         L2 = L2.copy()
         R2 = R2.copy()
-        L2.index = rng.sample(range(1000), len(L2))
+        L2.index = relabel(rng, len(L2))
         L2['zz_unrelated'] = range(len(L2))
         R2.insert(0, 'aa_unrelated', ['q'] * len(R2))
         o = call_join(which, L2, R2, lk, rk, la, ra, ts, t, kw)
@@ -876,7 +947,7 @@ def oracle_schedule(rng, n, stats):
                         v.append(viol('C10', '%sFilter.filter_tables depends on n_jobs' % kind, dict(case, n_jobs=nj), len(ref), len(o)))
             L2 = L.sample(frac=1.0, random_state=rng.randint(0, 10 ** 6)).copy() if len(L) else L.copy()
             R2 = R.sample(frac=1.0, random_state=rng.randint(0, 10 ** 6)).copy() if len(R) else R.copy()
-            R2.index = rng.sample(range(1000), len(R2))
+            R2.index = relabel(rng, len(R2))
             L2['zz_unrelated'] = 1.5
             o = f.filter_tables(L2, R2, lk, rk, la, ra, show_progress=False)
             if rows_multiset(o) != ref:
